@@ -5,6 +5,7 @@ import (
 	"go/token"
 	"go/types"
 	"sort"
+	"strings"
 )
 
 // Callee postconditions for the guard-facts analysis.
@@ -853,4 +854,165 @@ func (p *Program) resultConsts(callee *FuncInfo) []int64 {
 	sort.Slice(out, func(i, j int) bool { return out[i] < out[j] })
 	p.resConstsCache[callee] = out
 	return out
+}
+
+// fieldWritesOf: names of the struct fields fi may assign (directly or through same-module callees, three levels).
+func (p *Program) fieldWritesOf(fi *FuncInfo, depth int) map[string]bool {
+	if p.fieldWritesCache == nil {
+		p.fieldWritesCache = map[*FuncInfo]map[string]bool{}
+	}
+	if v, ok := p.fieldWritesCache[fi]; ok {
+		return v
+	}
+	out := map[string]bool{}
+	p.fieldWritesCache[fi] = out // recursion guard: partial result
+	if fi.Decl.Body == nil {
+		return out
+	}
+	info := fi.Pkg.TypesInfo
+	note := func(e ast.Expr) {
+		e = ast.Unparen(e)
+		for {
+			switch x := e.(type) {
+			case *ast.IndexExpr:
+				e = ast.Unparen(x.X)
+				continue
+			case *ast.StarExpr:
+				e = ast.Unparen(x.X)
+				continue
+			}
+			break
+		}
+		if sel, ok := e.(*ast.SelectorExpr); ok {
+			if fv := fieldOf(info, sel); fv != nil {
+				out[fv.Name()] = true
+			}
+		}
+	}
+	ast.Inspect(fi.Decl.Body, func(x ast.Node) bool {
+		switch y := x.(type) {
+		case *ast.AssignStmt:
+			for _, l := range y.Lhs {
+				note(l)
+			}
+			// *iter = *other: every field
+			for _, l := range y.Lhs {
+				if st, ok := ast.Unparen(l).(*ast.StarExpr); ok {
+					if t := info.TypeOf(st); t != nil {
+						if sct, isS := t.Underlying().(*types.Struct); isS {
+							for i := 0; i < sct.NumFields(); i++ {
+								out[sct.Field(i).Name()] = true
+							}
+						}
+					}
+				}
+			}
+		case *ast.IncDecStmt:
+			note(y.X)
+		case *ast.CallExpr:
+			if depth < 3 {
+				if fn := calleeOf(info, y); fn != nil {
+					if callee := p.FuncOf(fn); callee != nil && callee != fi {
+						for k := range p.fieldWritesOf(callee, depth+1) {
+							out[k] = true
+						}
+					}
+				}
+			}
+		}
+		return true
+	})
+	return out
+}
+
+// nodeWrite: a call in a node may assign the named fields of objects reachable from the named roots (its receiver
+// and its reference-typed arguments).
+type nodeWrite struct {
+	roots  []string
+	fields map[string]bool
+}
+
+// nodeFieldWrites: for the calls made in node n to functions of the module: which fields they may assign, and
+// through which variables of the caller (receiver / arguments that can carry a reference).
+func (p *Program) nodeFieldWrites(info *types.Info, n ast.Node) []nodeWrite {
+	if p.nodeWritesCache == nil {
+		p.nodeWritesCache = map[ast.Node][]nodeWrite{}
+	}
+	if v, ok := p.nodeWritesCache[n]; ok {
+		return v
+	}
+	var out []nodeWrite
+	inspectNoLit(n, func(x ast.Node) bool {
+		c, ok := x.(*ast.CallExpr)
+		if !ok {
+			return true
+		}
+		fn := calleeOf(info, c)
+		if fn == nil {
+			return true
+		}
+		callee := p.FuncOf(fn)
+		if callee == nil {
+			return true
+		}
+		fw := p.fieldWritesOf(callee, 0)
+		if len(fw) == 0 {
+			return true
+		}
+		nw := nodeWrite{fields: fw}
+		addRoot := func(e ast.Expr) {
+			if e == nil {
+				return
+			}
+			if u, isU := ast.Unparen(e).(*ast.UnaryExpr); isU && u.Op == token.AND {
+				e = u.X
+			} else if t := info.TypeOf(e); t != nil {
+				switch t.Underlying().(type) {
+				case *types.Pointer, *types.Slice, *types.Map, *types.Interface, *types.Chan, *types.Signature:
+				default:
+					return // passed by value
+				}
+			}
+			if r := rootIdent(e); r != nil {
+				nw.roots = append(nw.roots, r.Name)
+			}
+		}
+		if rx := recvExpr(c); rx != nil {
+			// a method with a pointer receiver can write through an addressable value receiver expression too
+			if sig, isSig := fn.Type().(*types.Signature); isSig && sig.Recv() != nil {
+				if _, isPtr := sig.Recv().Type().Underlying().(*types.Pointer); isPtr {
+					if r := rootIdent(rx); r != nil {
+						nw.roots = append(nw.roots, r.Name)
+					}
+				} else {
+					addRoot(rx)
+				}
+			}
+		}
+		for _, a := range c.Args {
+			addRoot(a)
+		}
+		if len(nw.roots) > 0 {
+			out = append(out, nw)
+		}
+		return true
+	})
+	p.nodeWritesCache[n] = out
+	return out
+}
+
+// mentionsField: the atom text selects a field of that name (".name" as a whole token).
+func mentionsField(atom, name string) bool {
+	idx := 0
+	for {
+		i := strings.Index(atom[idx:], "."+name)
+		if i < 0 {
+			return false
+		}
+		j := idx + i + 1 + len(name)
+		if j == len(atom) || !isIdentChar(atom[j]) {
+			return true
+		}
+		idx = idx + i + 1
+	}
 }
